@@ -565,6 +565,8 @@ def ser_with_sym(ctx):
 
 
 @rule('SER-ENUM-EXT', dict({
+    'C16': 'ops reach validate_op after travelling in serialised form: if one variant can decode as another, validate_op judges an op '
+           'that was never issued, the real one is lost, and the clock gap it leaves makes the actor\'s next in-order op rejected',
     'C19': 'op enums must use serde\'s externally tagged representation: internally tagged / adjacent / untagged enums are decoded '
            'through serde\'s buffered Content, which turns map keys into strings, so a VClock with integer actors no longer deserialises',
 }, **{p_: 'an op that travels between replicas in serialised form must arrive as the op that was sent: an untagged representation lets one '
@@ -600,3 +602,59 @@ def ser_enum_ext(ctx):
                   '%s is not serialised as an externally tagged enum (variants without serialize_*_variant: %s%s): its ops are decoded through '
                   'serde\'s buffered representation, which breaks maps with non-string keys such as VClock<u64>'
                   % (adt, missing, '; uses ' + plain[0] if plain else ''), fnkey=adt)
+
+
+VERIFIED_WITH = {'crdts::serde_helper::btreemap_as_vec': 'SER-WITH-SYM relates its serialize and deserialize'}
+
+
+@rule('SER-WITH-PAIR', dict({
+    'C19': 'a field written by one hand-written routine and read by an unrelated one (or by the default) has no reason to read back '
+           'what was written',
+}, **{p_: TYPE_PROP_WHY for ps_ in TYPE_PROPS.values() for p_ in ps_}), floor=2,
+    inst_filter={p_: (lambda i, p_=p_: p_ in type_props(i) or i in ('floor', 'anchor', 'internal')) for ps_ in TYPE_PROPS.values() for p_ in ps_})
+def ser_with_pair(ctx):
+    """Every crate-local function a derived Serialize / Deserialize impl calls (`with`, `serialize_with`, `deserialize_with`,
+    `from`, ..) belongs to a helper module whose two directions a rule relates, and a type uses the same helpers, the same
+    number of times, in both directions."""
+    facts = ctx.facts
+    per = {}
+    for b in facts.bodies:
+        if not b.serde:
+            continue
+        m = re.search(r'impl lwwreg::_::_serde::(Serialize|Deserialize)(?:<[^>]*>)? for ([\w:]+)', b.key)
+        if not m:
+            m2 = re.match(r'<crdts::([\w:]+) as lwwreg::_::_serde::(Serialize|Deserialize)>', b.key)
+            if not m2:
+                continue
+            m = type('M', (), {'group': lambda self, i, m2=m2: m2.group(2) if i == 1 else m2.group(1)})()
+        side, ty = ('ser' if m.group(1) == 'Serialize' else 'de'), m.group(2)
+        if side == 'de' and 'visit_map' in b.key:
+            side = 'de-map'
+        elif side == 'de' and 'visit_seq' in b.key:
+            side = 'de-seq'
+        it = interp(facts, b)
+        for c in it.calls.values():
+            info = cinfo(c.cid)
+            if info['local'] and (info['name'] or '').startswith('~'):
+                mod = (info['def'] or '').rsplit('::', 1)[0]
+                per.setdefault(ty, {}).setdefault(side, []).append(mod)
+    n = 0
+    for ty in sorted(per):
+        sides = per[ty]
+        n += 1
+        body = None
+        mods = set(m_ for v in sides.values() for m_ in v)
+        unknown = sorted(mods - set(VERIFIED_WITH))
+        if unknown:
+            ctx.fail(ty, body, '%s is (de)serialised through %s, a hand-written routine whose two directions no rule relates'
+                     % (ty, ', '.join(unknown)), fnkey=ty)
+            continue
+        ser = sorted(sides.get('ser', []))
+        # a struct is read either as a sequence or as a map: both visitors must route the same fields through the same helpers;
+        # a transparent / newtype struct has neither and calls the helper from deserialize itself
+        des = [sorted(sides[k]) for k in ('de-seq', 'de-map', 'de') if k in sides]
+        ctx.check(bool(des) and all(d_ == ser for d_ in des), ty, body, '%d field(s) through %s in both directions' % (len(ser), ', '.join(sorted(mods))),
+                  '%s routes %d field(s) through a helper when writing but %s when reading: writer and reader disagree on the wire form'
+                  % (ty, len(ser), '/'.join(str(len(d_)) for d_ in des) or 'none'), fnkey=ty)
+    if not n:
+        ctx.shape('none', None, 'no derived impl calls a helper module (List.seq, MerkleReg.dag/orphans are expected to)')
